@@ -114,6 +114,37 @@ func body(r *ev.Run) {
 	}
 	otherNetworks(r)
 	r.Require("stores_of_other_networks_checked", 3)
+	// towers: runs of 18..40 consecutive blocks whose target is 1 or 2 (work 2^255 / about 2^254.4 each), so that the
+	// cumulative work passes 10^78 and 2^260 - decimal strings of 79 and more digits in the store - followed by ordinary blocks
+	// and a restart
+	nTow := r.Pick(6, 60)
+	for i := 0; i < nTow; i++ {
+		caseID := fmt.Sprintf("tower/%d", i)
+		r.Do(caseID, func() {
+			rng := r.Rand(caseID)
+			var hist gen.History
+			prev := rig.Genesis().HashOf()
+			n := 18 + rng.Intn(23)
+			for k := 0; k < n+4; k++ {
+				h := refmodel.Hdr{Prev: prev, Bits: []uint32{0x01010000, 0x01020000, 0x02000100}[rng.Intn(3)]}
+				if k >= n {
+					h.Bits = gen.BitsNormal
+				}
+				gen.Fields(rng, &h, false, 700000+i*100+k)
+				hist.Hdrs = append(hist.Hdrs, h)
+				prev = h.HashOf()
+			}
+			r.Count("histories_whose_cumulative_work_passes_10^78", 1)
+			restarted := false
+			runHistory(r, st, caseID, hist, true, func() bool {
+				if !restarted && rng.Intn(n) == 0 {
+					restarted = true
+					return true
+				}
+				return false
+			}, func() int { return 0 })
+		})
+	}
 	nHist := r.Pick(320, 6000)
 	for i := 0; i < nHist; i++ {
 		caseID := fmt.Sprintf("h/%d", i)
